@@ -23,6 +23,9 @@ def small_cases(ctx):
     pl = placements(k, rng, 14 if ctx.tier == "quick" else 40)
     # always include the D12 shape: a grandfathered failure before an unrecorded one
     pl = [("oo" + "u" * (k - 2), [0]), ("ow" + "o" * (k - 2), [0, 2]), ("wo" + "u" * (k - 2), None)] + pl
+    # an entry that cannot be read (I/O error: no result, never a trigger) in every position of every order,
+    # next to unrecorded, grandfathered and passing files
+    pl = [("eo" + "u" * (k - 2), None), ("eoo" + "u" * (k - 3), [1]), ("ewo" + "e" * (k - 3), None), ("eo" + "w" * (k - 2), [1])] + pl
     out = []
     for i, (sizes, bl) in enumerate(pl):
         out.append((sizes, bl, i % 2 == 1, i % 5 == 2, i % 11 == 7))
@@ -45,7 +48,7 @@ def run(ctx):
     reps = 2 if ctx.tier == "quick" else 3
     for i in range(nbig):
         n = rng.choice([8, 12, 20, 40]) if ctx.tier == "quick" else rng.choice([8, 20, 40, 60])
-        sizes = "".join(rng.choice("uuuwwo" if i % 3 else "uwoo") for _ in range(n))
+        sizes = "".join(rng.choice("uuuwwoe" if i % 3 else "uwooe") for _ in range(n))
         fails = [j for j, c in enumerate(sizes) if c == "o"]
         bl = None if i % 4 == 3 else [j for j in fails if rng.random() < 0.5]
         orders = []
@@ -54,7 +57,7 @@ def run(ctx):
             rng.shuffle(o)
             orders.append(o[:rng.randint(max(2, n // 2), n)])
         jobs.append(("rand", sizes, bl, orders, threads_all, reps, i % 2 == 0, i % 5 == 1, False, False))
-        jobs.append(("scan", sizes, bl, [None], threads_all[:4] if ctx.tier == "quick" else threads_all, reps, i % 2 == 1, False, False, True))
+        jobs.append(("scan", sizes.replace("e", "u"), bl, [None], threads_all[:4] if ctx.tier == "quick" else threads_all, reps, i % 2 == 1, False, False, True))
     traces, spawns = [], 0
 
     def do(j):
@@ -114,13 +117,14 @@ def run(ctx):
     ctx.cov["evaluations"] = lib["cases"] + len(traces) + ident_runs
     ctx.cov["distinct_nontrivial"] = len(nontrivial)
     ctx.cov["traces_validated_against_impl"] = len(traces) - len({json.dumps(b["trace"], sort_keys=True) for b in tie_bad})
-    ctx.cov["rule"] = ("RAYON_NUM_THREADS=1 x every permutation of --files over %d files x placements of passing / warned / failing / grandfathered files (fail-fast by flag and by "
+    ctx.cov["rule"] = ("RAYON_NUM_THREADS=1 x every permutation of --files over %d files x placements of passing / warned / failing / grandfathered files and unreadable entries (I/O error: no result) (fail-fast by flag and by "
                        "[check] fail_fast); 1..16 threads x random --files orders and directory scans x repetitions for 8..60 files; every observed R' checked with ff_subb against the "
                        "run without fail-fast, sequential runs against ff_seq, exit against determine_exit_code(apply_baseline_comparison R'); without fail-fast stdout compared bytewise "
                        "across 1,2,4,8,16 threads. non-trivial = distinct (placement, baseline, order, fail-fast source) with at least one failing file" % k)
     ctx.cov["input_distribution"] = {"traces": dist, "library": lib["dist"], "cli_spawns": spawns, "identical_output_runs": ident_runs,
                                      "threads": sorted({t["threads"] for t in traces}), "dropped_some_result": sum(1 for t in traces if len(t["Rp"]) < len(t["R"])),
-                                     "with_grandfathered": sum(1 for t in traces if any(r["status"] == "G" for r in t["obs"]))}
+                                     "with_grandfathered": sum(1 for t in traces if any(r["status"] == "G" for r in t["obs"])),
+                                     "with_unreadable_entry": sum(1 for t in traces if "e" in t["sizes"] and not t["full_scan"])}
     ctx.cov["model_vs_impl_mismatches"] = len(lib["mismatches"]) + len(tie_bad)
     for t in traces[:3]:
         ctx.sample({"sizes": t["sizes"], "baseline": t["baseline"], "order": t["order"], "threads": t["threads"], "observed": [r["path"] + ":" + r["status"] for r in t["obs"]],
